@@ -23,6 +23,12 @@ def handle (toks : List String) : String :=
   | [tag, "inter", a, b] => match Gen.universeByTag tag, parseList a, parseList b with
       | some U, some a, some b => r (closeFast U (a.filter fun x => b.contains x))
       | _, _, _ => "bad-op"
+  | [tag, "cmp", a, b] => match Gen.universeByTag tag, parseList a, parseList b with
+      | some U, some a, some b =>
+        let ga := closeFast U a
+        let gb := closeFast U b
+        s!"le={leB ga gb} ge={geB ga gb} lt={ltB ga gb} gt={gtB ga gb} eq={eqB ga gb} disjoint={disjointB ga gb}"
+      | _, _, _ => "bad-op"
   | [tag, "wf"] => match Gen.universeByTag tag with
       | some U => toString (wfB U)
       | none => "bad-op"
